@@ -42,6 +42,21 @@ func buildHarnessHandlers(h map[string]handler) {
 	H := "(*" + zzPkg + ".H)."
 	h[H+"Atom"] = func(e *Exec, fn *ssa.Function, a []Value) Value {
 		name := concStrArg(a[1])
+		if nb := e.cfg.AtomBytes; nb > 0 {
+			n := e.chooseN(nb+1, nil)
+			bs := make([]*Term, n)
+			for i := range bs {
+				b := e.freshVar(fmt.Sprintf("y_%s_%d", name, i), SInt)
+				e.assertPC(Le(K(1), b))
+				e.assertPC(Lt(b, K(128)))
+				bs[i] = b
+			}
+			e.inputs = append(e.inputs, inputRec{Kind: "atom", Name: name, bs: bs})
+			if n == 0 {
+				return Str{}
+			}
+			return Str{bytes: bs, isB: true}
+		}
 		t := e.freshVar("a_"+name, SInt)
 		e.assertPC(Le(K(0), t))
 		e.inputs = append(e.inputs, inputRec{Kind: "atom", Name: name, t: t})
@@ -179,6 +194,8 @@ func buildHarnessHandlers(h map[string]handler) {
 		e.observeAll()
 		return nil
 	}
+	h[H+"AwaitBegin"] = func(e *Exec, fn *ssa.Function, a []Value) Value { e.sch.cur.awaiting = true; return nil }
+	h[H+"AwaitEnd"] = func(e *Exec, fn *ssa.Function, a []Value) Value { e.sch.cur.awaiting = false; return nil }
 	h[H+"Yield"] = func(e *Exec, fn *ssa.Function, a []Value) Value {
 		e.yield(func() bool { return true }, nil)
 		return nil
